@@ -237,6 +237,10 @@ func (l *Local) load(podResources []daemon.PodResources) error {
 
 	// allocate to previous pods
 	for _, podResource := range podResources {
+		if podResource.PodInfo == nil {
+			// a record without pod info can not be matched to a pod
+			continue
+		}
 		podID := podResource.PodInfo.Namespace + "/" + podResource.PodInfo.Name
 
 		for _, res := range podResource.Resources {
